@@ -218,3 +218,34 @@ def check(elf, g, reach, syms):
             problems.append(f"retained function {name} has {n} FDEs")
     stats["checked_functions"] = len(need)
     return problems, stats
+
+
+def check_structure(elf):
+    """Model-free part of C10: .eh_frame_hdr count == FDEs, table strictly sorted, every entry
+    points at an FDE whose pc_begin is the entry's address."""
+    problems = []
+    fdes, p = parse_eh_frame(elf)
+    problems += p
+    hdr = parse_hdr(elf)
+    if hdr is None:
+        return problems
+    ehs = elf.section(".eh_frame")
+    if ehs is not None and hdr["eh_frame_ptr"] != ehs.addr:
+        problems.append(".eh_frame_hdr does not point at .eh_frame")
+    if hdr["count"] != len(fdes):
+        problems.append(f".eh_frame_hdr fde_count {hdr['count']} != {len(fdes)} FDEs in .eh_frame")
+    by_addr = {f["addr"]: f for f in fdes}
+    prev = None
+    for (loc, fde_addr) in hdr["table"]:
+        if prev is not None and loc <= prev:
+            problems.append(f"search table not strictly sorted at {loc:#x}")
+            break
+        prev = loc
+        f = by_addr.get(fde_addr)
+        if f is None:
+            problems.append(f"table entry {loc:#x} -> {fde_addr:#x} is not an FDE")
+            break
+        if f["pc_begin"] != loc:
+            problems.append(f"table entry {loc:#x} points at FDE for {f['pc_begin']:#x}")
+            break
+    return problems
